@@ -23,6 +23,35 @@ CHECKS = {
          "Seeded random search over multimap operation sequences x 3 key/value families x page/region/cache sizes, with value counts and sizes steered across the inline/subtree limit in both directions; every return value, MultimapValue::len during consumption, and full scans compared with the model after every transaction and reopen.",
          "Trusts the harness model; inline/subtree classification for the non-triviality count is a size estimate.",
          "DESIGN.md 4/C09"),
+ "C01": ("fault_enumeration", "crash-state enumeration over recorded histories: proptest-generated histories on a recording backend, enumerated/sampled subsets and tears of unsynced writes at every storage operation, nested crashes in recovery; oracle = reference model's commit points",
+         "hist+crashsim",
+         "Generated histories x crash instants x kept/dropped/torn subsets of the writes since the last sync (all 2^W subsets for small W) x a second crash inside recovery; every recovered image must open and equal exactly one commit point in [last acknowledged durable, last requested]. Enumeration is complete only for the small-W instants; everything else is a seeded sample.",
+         "Crash model as docs/design.md assumes it (atomic bytes, durable after fsync, powersafe overwrite); the reference model of commit points; crashes during creation excluded.",
+         "DESIGN.md 4/C01"),
+ "C02": ("exploration", "stateful model-based property testing: generated histories with held readers/owned iterators vs frozen model snapshots",
+         "hist", "Generated single-threaded histories with up to 6 live readers and owned iterators/guards consulted after later commits of every durability, deletes, restores, refused compactions, cache sizes from 0; each must equal its commit point's model snapshot.",
+         "Single-threaded schedule; thread interleavings are C03's engine.", "DESIGN.md 4/C02"),
+ "C05": ("exploration", "stateful model-based property testing: abandoned transactions (abort/drop/poisoned commit) vs model; exact allocated-page equality",
+         "hist", "Generated histories in which transactions are abandoned by abort, drop or poisoned commit; contents, catalog, persistent savepoints and allocated page count must equal the state before the transaction began.",
+         "Storage-error-inside-operation cases are judged by C08.", "DESIGN.md 4/C05"),
+ "C07": ("exploration", "stateful model-based property testing of savepoint create/restore/delete/drop orders vs captured model states; crash part via C01's crash-state enumeration",
+         "hist+crashsim", "Generated savepoint-dominated histories with exact refusal variants and captured-state equality after restore+commit, nothing changed after restore+abort, persistent ids across reopen; persistent savepoints across crash states are compared inside C01 (savepoint sets are part of each commit point).",
+         "Persistent Savepoint objects are fetched fresh; exact page accounting is C06.", "DESIGN.md 4/C07"),
+ "C08": ("fault_enumeration", "fault injection at enumerated/sampled backend call indices (once/permanent) over generated histories, then drop-time crash states and reopen; oracle = reference model + refusal rule",
+         "hist+crashsim", "For generated histories every (small histories) or a stratified sample of backend call indices is made to fail once or permanently; no panic, no false success, writes refused after a reported error, reopen lands on a commit point in the window with the failed commit all-or-nothing.",
+         "A failing call applies nothing; best-effort write failures may legitimately not surface.", "DESIGN.md 4/C08"),
+ "C11": ("fault_enumeration", "crash-state enumeration + clean-close/open paths over generated histories; oracle = check_integrity()==Ok(true) twice, unchanged contents, continuation workload",
+         "hist+crashsim", "Every way of stopping a generated history (clean close, crash at enumerated/sampled storage operations) followed by open, check_integrity twice, a continuation workload that writes to every table, and check_integrity again.",
+         "Allocation state is observed through check_integrity and safe reuse, not page by page (C06).", "DESIGN.md 4/C11"),
+ "C13": ("exploration", "stateful model-based property testing with compaction steps; closed-file length comparison; refusal-reason oracle; crash states inside compaction via C01's engine",
+         "hist+crashsim", "Generated fragmented histories with compact() calls: contents unchanged, closed file not larger (known finding listed), refusals name a true condition; C01 enumerates crash states in the 'compact' phase.",
+         "Size is compared between cleanly closed files (upstream's own notion, DESIGN.md section 7).", "DESIGN.md 4/C13"),
+ "C17": ("exploration", "stateful model-based property testing of catalog operations with exact error-variant oracle",
+         "hist", "Generated catalog histories over 6 names x 8 definitions with deliberately mismatching opens, renames, deletes, held handles, lists, aborts, reopen; compared with a model map including the exact TableError variant.",
+         "TypeDefinitionChanged needs two Rust types with one TypeName and is not generated here.", "DESIGN.md 4/C17"),
+ "C20": ("exploration", "monitor backend inside every generated history + generated drop-order / failing-open / fault-in-open / read-only scenarios",
+         "hist+monitor", "The recording backend checks bounds, close-exactly-once and nothing-after-close in every run of every history-based check; C20's own tapes permute drops of Database, write transaction, reader and savepoint, alter or fault the open path, and compare file bytes around a ReadOnlyDatabase.",
+         "Thread interleavings of drops only in C03's engine; reads past EOF on deliberately altered files are counted, not judged.", "DESIGN.md 4/C20"),
 }
 
 ALL = ["C%02d" % i for i in range(1, 21)]
@@ -57,6 +86,8 @@ def main():
         },
         "engines": [
             {"name": "tableops", "path": "harness/src/tableops.rs", "serves_properties": ["C04", "C09", "C18"], "kind_free_text": "single-table op interpreter + BTreeMap model over generated tapes"},
+            {"name": "hist", "path": "harness/src/hist.rs", "serves_properties": ["C01", "C02", "C05", "C07", "C08", "C11", "C13", "C17", "C20"], "kind_free_text": "history state machine (transactions, savepoints, readers, catalog, reopen, compact) with a reference model of commit points"},
+            {"name": "crashsim", "path": "harness/src/crash.rs", "serves_properties": ["C01", "C07", "C08", "C11", "C13", "C20"], "kind_free_text": "recording / fault-injecting / contract-monitoring StorageBackend and crash-state enumerator"},
         ],
         "checks": checks,
         "not_applicable": [{"property_id": p, "reason": PENDING_REASON} for p in ALL if p not in CHECKS],
